@@ -32,6 +32,7 @@ Section C08.
   Variable slm : slmode.
   Variable dfm ddm : N.
   Variable own : bool.
+  Variable fixed : bool.
   Variable rn_ok : rn <> ".".
 
   (* the protected node *)
@@ -142,7 +143,7 @@ Section C08.
   Qed.
 
   Lemma create_link_inside : forall h n p target q s s' r,
-    create_link norm E slm own h n p target s = (s', r) -> K s -> P = h ++ n :: q -> K s'.
+    create_link norm E slm own fixed h n p target s = (s', r) -> K s -> P = h ++ n :: q -> K s'.
   Proof.
     intros h n p target q s s' r H Hk HP. unfold create_link in H.
     destruct (slmode_eqb slm SLIgnore); [injection H as <- _; exact Hk|].
@@ -156,7 +157,7 @@ Section C08.
   Qed.
 
   Lemma create_dir_inside : forall fuel h n p tc q s s' r,
-    create_dir_f norm E slm dfm ddm own fuel h n p tc s = (s', r) -> K s -> P = h ++ n :: q -> K s'.
+    create_dir_f norm E slm dfm ddm own fixed fuel h n p tc s = (s', r) -> K s -> P = h ++ n :: q -> K s'.
   Proof.
     intros fuel h n p tc q s s' r H Hk HP. destruct fuel as [|fuel]; cbn [create_dir_f] in H.
     - injection H as <- _. exact Hk.
@@ -464,7 +465,7 @@ Section C08.
   Qed.
 
   Lemma create_keeps : forall p e s s' r,
-    create norm E rn slm dfm ddm own p e s = (s', r) -> path_ok p -> K s ->
+    create norm E rn slm dfm ddm own fixed p e s = (s', r) -> path_ok p -> K s ->
     placed_ok p -> K s'.
   Proof.
     intros p e s s' r H Hp Hk Hpl. pose proof H as H0. unfold create in H.
@@ -478,13 +479,13 @@ Section C08.
     - apply is_prefix_iff in Hpre. destruct Hpre as [q Hq].
       pose proof (hof_lof_inside p q Hq) as HP.
       destruct e0 as [tc|x dg|t| |msg|pc].
-      + destruct (create_dir_f norm E slm dfm ddm own (depth_entry (EDir tc)) (hof rn p) (lof rn p) p tc s1)
+      + destruct (create_dir_f norm E slm dfm ddm own fixed (depth_entry (EDir tc)) (hof rn p) (lof rn p) p tc s1)
           as [s2 r2] eqn:R.
         injection H as <- _. eapply create_dir_inside; eassumption.
       + destruct (create_file E dfm own (hof rn p) (lof rn p) p (EFile x dg) s1) as [s2 r2] eqn:R.
         assert (K s2) as Hk2 by (eapply find_and_move_inside; try eassumption; discriminate).
         destruct r2 as [[]|e2|]; injection H as <- _; exact Hk2.
-      + destruct (create_link norm E slm own (hof rn p) (lof rn p) p (ELink t) s1) as [s2 r2] eqn:R.
+      + destruct (create_link norm E slm own fixed (hof rn p) (lof rn p) p (ELink t) s1) as [s2 r2] eqn:R.
         assert (K s2) as Hk2 by (eapply create_link_inside; eassumption).
         destruct r2 as [[]|e2|]; injection H as <- _; exact Hk2.
       + injection H as <- _. exact Hk1.
@@ -529,7 +530,7 @@ Section C08.
     (forall e0 q, cold c = Some e0 -> pp = cpath c ++ q -> unauth (cpath c) e0 q).
 
   Lemma trans_one_keeps : forall c s s' r,
-    trans_one norm E rn ch slm dfm ddm own c s = (s', r) ->
+    trans_one norm E rn ch slm dfm ddm own fixed c s = (s', r) ->
     item_ok c -> tsorted (tfs s) -> K s -> K s'.
   Proof.
     intros c s s' r H (Hp & Hpl & HU) Hs Hk. unfold trans_one in H.
@@ -537,7 +538,7 @@ Section C08.
     assert (forall s1 r0, (let '(s1, r) := remove norm E rn ch slm (cpath c) (cold c) s in
                 match r with
                 | Some _ => (s1, r)
-                | None => create norm E rn slm dfm ddm own (cpath c) (cnew c) s1
+                | None => create norm E rn slm dfm ddm own fixed (cpath c) (cnew c) s1
                 end) = (s1, r0) -> K s1) as RC.
     { intros s1 r0 H0. destruct (remove norm E rn ch slm (cpath c) (cold c) s) as [sa ra] eqn:R.
       assert (K sa) as Hka by (eapply remove_keeps; eassumption).
@@ -552,18 +553,18 @@ Section C08.
   Qed.
 
   Lemma trans_loop_keeps : forall plan s s' rs,
-    trans_loop norm E rn ch slm dfm ddm own plan s = (s', rs) ->
+    trans_loop norm E rn ch slm dfm ddm own fixed plan s = (s', rs) ->
     Forall item_ok plan -> tsorted (tfs s) -> K s -> K s'.
   Proof.
     induction plan as [|c rest IH]; intros s s' rs H HF Hs Hk; cbn [trans_loop] in H.
     - injection H as <- _. exact Hk.
     - inversion HF as [|? ? Hc HF']; subst.
-      destruct (trans_one norm E rn ch slm dfm ddm own c s) as [s1 r] eqn:T1.
-      destruct (trans_loop norm E rn ch slm dfm ddm own rest s1) as [s2 rs2] eqn:TL.
+      destruct (trans_one norm E rn ch slm dfm ddm own fixed c s) as [s1 r] eqn:T1.
+      destruct (trans_loop norm E rn ch slm dfm ddm own fixed rest s1) as [s2 rs2] eqn:TL.
       injection H as <- _.
       pose proof (trans_one_keeps _ _ _ _ T1 Hc Hs Hk) as Hk1.
       destruct Hc as (Hp & _ & _).
-      pose proof (eff_sorted _ _ _ _ (trans_one_eff _ _ _ _ _ _ _ _ rn_ok _ _ _ _ T1 Hp) Hs) as Hs1.
+      pose proof (eff_sorted _ _ _ _ (trans_one_eff _ _ _ _ _ _ _ _ _ rn_ok _ _ _ _ T1 Hp) Hs) as Hs1.
       eapply IH; eassumption.
   Qed.
 
@@ -892,7 +893,7 @@ Section C08.
   Qed.
 
   Lemma trans_one_reports : forall c e0 q s s' r,
-    trans_one norm E rn ch slm dfm ddm own c s = (s', r) -> path_ok (cpath c) ->
+    trans_one norm E rn ch slm dfm ddm own fixed c s = (s', r) -> path_ok (cpath c) ->
     tsorted (tfs s) -> K s ->
     cold c = Some e0 -> pp = cpath c ++ q -> unauth (cpath c) e0 q -> visits e0 q ->
     Forall (fun k => listed k = true) q ->
@@ -904,7 +905,7 @@ Section C08.
     assert (forall s1 r0, (let '(s1, r) := remove norm E rn ch slm (cpath c) (Some e0) s in
                 match r with
                 | Some _ => (s1, r)
-                | None => create norm E rn slm dfm ddm own (cpath c) (cnew c) s1
+                | None => create norm E rn slm dfm ddm own fixed (cpath c) (cnew c) s1
                 end) = (s1, r0) -> reported_between (cpath c) q s1) as RC.
     { intros s1 r0 H0. destruct (remove norm E rn ch slm (cpath c) (Some e0) s) as [sa ra] eqn:R.
       pose proof (remove_reports _ _ _ _ _ _ R Hp Hs Hk Hq HU HV HL) as Hr.
@@ -922,20 +923,20 @@ Section C08.
   Qed.
 
   Lemma trans_loop_pmono : forall plan s s' rs,
-    trans_loop norm E rn ch slm dfm ddm own plan s = (s', rs) ->
+    trans_loop norm E rn ch slm dfm ddm own fixed plan s = (s', rs) ->
     Forall (fun c => path_ok (cpath c)) plan -> pmono s s'.
   Proof.
     induction plan as [|c rest IH]; intros s s' rs H HF; cbn [trans_loop] in H.
     - injection H as <- _. apply pmono_refl.
     - inversion HF as [|? ? Hc HF']; subst.
-      destruct (trans_one norm E rn ch slm dfm ddm own c s) as [s1 r] eqn:T1.
-      destruct (trans_loop norm E rn ch slm dfm ddm own rest s1) as [s2 rs2] eqn:TL.
+      destruct (trans_one norm E rn ch slm dfm ddm own fixed c s) as [s1 r] eqn:T1.
+      destruct (trans_loop norm E rn ch slm dfm ddm own fixed rest s1) as [s2 rs2] eqn:TL.
       injection H as <- _. eapply pmono_trans; [|eapply IH; eassumption].
-      apply (eff_probs _ _ _ _ (trans_one_eff _ _ _ _ _ _ _ _ rn_ok _ _ _ _ T1 Hc)).
+      apply (eff_probs _ _ _ _ (trans_one_eff _ _ _ _ _ _ _ _ _ rn_ok _ _ _ _ T1 Hc)).
   Qed.
 
   Lemma trans_loop_reports : forall plan c e0 q s s' rs,
-    trans_loop norm E rn ch slm dfm ddm own plan s = (s', rs) ->
+    trans_loop norm E rn ch slm dfm ddm own fixed plan s = (s', rs) ->
     Forall item_ok plan -> tsorted (tfs s) -> K s -> In c plan ->
     cold c = Some e0 -> pp = cpath c ++ q -> visits e0 q ->
     Forall (fun k => listed k = true) q ->
@@ -944,12 +945,12 @@ Section C08.
     induction plan as [|c0 rest IH]; intros c e0 q s s' rs H HF Hs Hk Hin CO Hq HV HL;
       cbn [trans_loop] in H; [destruct Hin|].
     inversion HF as [|? ? Hc HF']; subst.
-    destruct (trans_one norm E rn ch slm dfm ddm own c0 s) as [s1 r] eqn:T1.
-    destruct (trans_loop norm E rn ch slm dfm ddm own rest s1) as [s2 rs2] eqn:TL.
+    destruct (trans_one norm E rn ch slm dfm ddm own fixed c0 s) as [s1 r] eqn:T1.
+    destruct (trans_loop norm E rn ch slm dfm ddm own fixed rest s1) as [s2 rs2] eqn:TL.
     injection H as <- _.
     pose proof (trans_one_keeps _ _ _ _ T1 Hc Hs Hk) as Hk1.
     pose proof Hc as (Hp & _ & HU0).
-    pose proof (eff_sorted _ _ _ _ (trans_one_eff _ _ _ _ _ _ _ _ rn_ok _ _ _ _ T1 Hp) Hs) as Hs1.
+    pose proof (eff_sorted _ _ _ _ (trans_one_eff _ _ _ _ _ _ _ _ _ rn_ok _ _ _ _ T1 Hp) Hs) as Hs1.
     destruct Hin as [->|Hin].
     - eapply reported_mono; [|eapply trans_one_reports; try eassumption; eapply HU0; eassumption].
       eapply trans_loop_pmono; [exact TL|].
